@@ -575,6 +575,12 @@ func verifLemmaSourceConnected(o *IPFSLog, A iface.IPFSLogOrderedEntries) {
 //@ @trunc assert "entries := entry.NewOrderedMapFromEntries(tmp)" [dropped-entries-are-not-newer-than-kept-ones] (forall k string :: has(ent(l), k) ==> k != "") ==> forall y string, i int :: has(ent(l), y) && 0 <= i && i < len(tmp) && (forall j int :: 0 <= j && j < len(tmp) ==> ehash(tmp[j]) != y) ==> ordH(l.SortFn, y, ehash(tmp[i])) <= 0
 //@ @trunc assert "entries := entry.NewOrderedMapFromEntries(tmp)" [kept-index-holds-exactly-the-kept-slice] holdsExactly(entries, tmp)
 //@ @trunc ensures [bounded-merge-keeps-the-newest-entries] err == nil && size >= 0 && l != nil && otherLog != nil && otherLog.(*IPFSLog) != l && l.ID == otherLog.(*IPFSLog).ID && (forall k string :: old(has(ent(l), k)) || old(has(ent(otherLog.(*IPFSLog)), k)) ==> k != "") ==> forall x string, y string :: has(ent(l), x) && (old(has(ent(l), y)) || old(has(ent(otherLog.(*IPFSLog)), y))) && !has(ent(l), y) ==> ordH(l.SortFn, y, x) <= 0
+//@   assert "tmp := l.values().Slice()" [linearised-entries-are-well-formed] validSlice(tmp)
+//@   assert "l.Clock = entry.NewLamportClock(clockID, clockTime)" [entry-index-is-valid-at-the-end] validEntries(l.Entries)
+//@   assert "l.Clock = entry.NewLamportClock(clockID, clockTime)" [heads-are-valid-at-the-end] validEntries(l.heads)
+//@   assert "l.Clock = entry.NewLamportClock(clockID, clockTime)" [reverse-index-is-valid-at-the-end] isOM(l.Next) && sepMaps(l)
+//@   assert "l.Clock = entry.NewLamportClock(clockID, clockTime)" [entry-blocks-are-stored-at-the-end] forall k string :: has(om(l.Entries).values, k) ==> stored[om(l.Entries).values[k].Hash]
+//@   assert "l.Clock = entry.NewLamportClock(clockID, clockTime)" [head-blocks-are-stored-at-the-end] forall k string :: has(om(l.heads).values, k) ==> stored[om(l.heads).values[k].Hash]
 //@   replay joinsize
 //@   loop 0
 //@     invariant validEntries(newItems) && fresh(newItems)
